@@ -13,6 +13,7 @@ from __future__ import annotations
 
 import itertools
 import json
+import shutil
 
 import httpx
 from graphql import TypeInfo, TypeInfoVisitor, Visitor, build_schema, execute_sync, parse, print_ast, specified_rules, validate, visit
@@ -25,7 +26,7 @@ enum Kind { A B }
 scalar Blob
 input Filter { name: String kindOf: Kind nested: Filter }
 interface Node { id: ID! }
-type User implements Node { id: ID! userName: String bestFriend(withKind: Kind): User posts(first: Int = 3, tags: [String!]): [Post!]! }
+type User implements Node { id: ID! userName: String bestFriend(withKind: Kind): User posts(first: Int = 3, tags: [String!]): [Post!]! feed(kind: Kind!, first: Int): [SearchResult!]! related(first: Int): [Node!] }
 type Post implements Node { id: ID! title(upper: Boolean = false): String author: User }
 type Team implements Node { id: ID! posts(first: Int!, pinned: Boolean): [Post!]! lead(kind: Kind, rank: Int!): User }
 union SearchResult = User | Post
@@ -66,6 +67,11 @@ USER_ITEMS = [
     ("UserFields.posts().alias('p3').fields(PostFields.title(upper=True))", "p3: posts { title(upper: true) }", {"alias", "depth2_arg"}),
     ("UserFields.posts(first=1).alias('pa').fields(PostFields.id)", "pa: posts(first: 1) { id }", {"alias", "nested_arg", "repeated_argument_name"}),
     ("UserFields.posts(first=2).alias('pb').fields(PostFields.id)", "pb: posts(first: 2) { id }", {"alias", "nested_arg", "repeated_argument_name"}),
+    # nested fields that take arguments and return a union / an interface
+    ("UserFields.feed(kind=Kind.A).on('Post', PostFields.id)", "feed(kind: A) { ... on Post { id } }", {"nested_arg", "nested_union_with_args", "enum_arg"}),
+    ("UserFields.feed(kind=Kind.B, first=2).on('User', UserFields.id).on('Post', PostFields.title())", "feed(kind: B, first: 2) { ... on User { id } ... on Post { title } }", {"nested_arg", "nested_union_with_args", "enum_arg"}),
+    ("UserFields.related(first=1).fields(NodeInterface.id)", "related(first: 1) { id }", {"nested_arg", "nested_interface_with_args"}),
+    ("UserFields.related().fields(NodeInterface.id).on('Post', PostFields.title())", "related { id ... on Post { title } }", {"nested_interface_with_args"}),
 ]
 POST_ITEMS = [
     ("PostFields.id", "id", set()),
@@ -405,9 +411,14 @@ def evaluate(case):
     """case: options, ops = [(optype, [exprs])], histories: list of expression strings executed first."""
     schema = build_schema(case["schema_text"]) if case.get("schema_text") else get_schema()
     out = {"status": "ok", "results": []}
-    with genpkg.scratch() as d:
+    import contextlib as _cl
+    pre = case.get("pregenerated")   # (root dir, package name): the history phase generates the default package once and every forked probe imports it
+    with (_cl.nullcontext(pre[0]) if pre else genpkg.scratch()) as d:
         try:
-            pkg, pdir, _ = genpkg.generate(d, case.get("schema_text") or SCHEMA, None, dict({"enable_custom_operations": True}, **case["options"]))
+            if pre:
+                pkg = pre[1]
+            else:
+                pkg, pdir, _ = genpkg.generate(d, case.get("schema_text") or SCHEMA, None, dict({"enable_custom_operations": True}, **case["options"]))
             mod, mods = genpkg.import_package(d, pkg)
         except genpkg.GenError as e:
             out.update(status="gen_error", error=str(e)[:300], error_type=e.exc_type)
@@ -504,6 +515,17 @@ HISTORY_MENU = [
     ("mutation", [("Mutation.rename_user(user_id='1', new_name='n').fields(UserFields.id)", 'renameUser(userId: "1", newName: "n") { id }', set())]),
     ("mutation", [("Mutation.update_post(id='p1', title='t').fields(PostFields.id)", 'updatePost(id: "p1", title: "t") { id }', set())]),
     ("query", [("Query.team().fields(TeamFields.posts(first=3).fields(PostFields.id))", "team { posts(first: 3) { id } }", set())]),
+    # the same method called with the SAME argument values, then given other sub-fields / another alias (a shared or memoised builder object would carry them over)
+    ("query", [("Query.me().fields(UserFields.posts().fields(PostFields.id))", "me { posts { id } }", set())]),
+    ("query", [("Query.me().fields(UserFields.posts().fields(PostFields.title()))", "me { posts { title } }", set())]),
+    ("query", [("Query.me().fields(UserFields.posts(first=2).alias('latest').fields(PostFields.id))", "me { latest: posts(first: 2) { id } }", set())]),
+    ("query", [("Query.me().fields(UserFields.posts(first=2).fields(PostFields.id, PostFields.title()))", "me { posts(first: 2) { id title } }", set())]),
+    ("query", [("Query.me().fields(UserFields.best_friend().fields(UserFields.id))", "me { bestFriend { id } }", set())]),
+    ("query", [("Query.me().fields(UserFields.best_friend().alias('bf').fields(UserFields.user_name))", "me { bf: bestFriend { userName } }", set())]),
+    ("query", [("Query.me().fields(UserFields.best_friend(with_kind=Kind.A).fields(UserFields.user_name))", "me { bestFriend(withKind: A) { userName } }", set())]),
+    ("query", [("Query.me().fields(UserFields.best_friend(with_kind=Kind.A).fields(UserFields.id))", "me { bestFriend(withKind: A) { id } }", set())]),
+    ("query", [("Query.user_by_id(user_id='1').fields(UserFields.posts().fields(PostFields.title(upper=True).alias('shout')))", 'userById(userId: "1") { posts { shout: title(upper: true) } }', set())]),
+    ("query", [("Query.user_by_id(user_id='1').fields(UserFields.posts().fields(PostFields.title(upper=True)))", 'userById(userId: "1") { posts { title(upper: true) } }', set())]),
 ]
 
 
@@ -547,17 +569,22 @@ def main(tier):
                 rep.violation(clause, feats, detail, dict(desc, sent=res["doc"]))
     # ---- histories: explicit-state BFS, states = snapshot of the shared class-level field objects
     depth = 2 if tier == "quick" else 3
+    hroot = genpkg.scratch_dir("verif-c14-hist-")
+    hst, hpkg = pool.run_forked(lambda _: genpkg.generate(hroot, SCHEMA, None, {"enable_custom_operations": True})[0], None, timeout=300)
+    if hst != "ok":
+        rep.violation("harness_history", [], str(hpkg)[:300], {"stage": "pregenerate"})
+    PRE = (hroot, hpkg)
     full_depth = 2   # every history of length < full_depth is expanded whatever state it leads to; beyond, states are de-duplicated by the snapshot
-    base_st, base = pool.run_forked(evaluate, dict(options={}, ops=HISTORY_MENU, history=[], check_documents=False))
+    base_st, base = pool.run_forked(evaluate, dict(options={}, ops=HISTORY_MENU, history=[], check_documents=False, pregenerated=PRE))
     # the fresh document of each menu entry must itself come from a fresh process
-    fresh_cases = [dict(options={}, ops=[e], history=[], check_documents=False) for e in HISTORY_MENU]
+    fresh_cases = [dict(options={}, ops=[e], history=[], check_documents=False, pregenerated=PRE) for e in HISTORY_MENU]
     fresh = pool.run_cases(evaluate, fresh_cases, timeout=300)
     fresh_docs = [r["results"][0]["doc"] if st == "ok" and r["status"] == "ok" else None for st, r in fresh]
     seen_states = {}
     frontier = [[]]
     states = transitions = 0
     for d in range(depth + 1):
-        hcases = [dict(options={}, ops=HISTORY_MENU, history=[HISTORY_MENU[i] for i in h], check_documents=False) for h in frontier]
+        hcases = [dict(options={}, ops=HISTORY_MENU, history=[HISTORY_MENU[i] for i in h], check_documents=False, pregenerated=PRE) for h in frontier]
         hres = pool.run_cases(evaluate, hcases, timeout=300)
         nxt = []
         for h, (st, r) in zip(frontier, hres):
@@ -575,7 +602,7 @@ def main(tier):
             for i, e in enumerate(HISTORY_MENU):
                 nxt.append(h + [i])
         # evaluate each (h, e) as "history h then e" in one process = the last element of h+[i] is the probe
-        probes = [dict(options={}, ops=[HISTORY_MENU[p[-1]]], history=[HISTORY_MENU[i] for i in p[:-1]], check_documents=False) for p in nxt]
+        probes = [dict(options={}, ops=[HISTORY_MENU[p[-1]]], history=[HISTORY_MENU[i] for i in p[:-1]], check_documents=False, pregenerated=PRE) for p in nxt]
         pres = pool.run_cases(evaluate, probes, timeout=300)
         for p, (st, r) in zip(nxt, pres):
             transitions += 1
@@ -593,6 +620,7 @@ def main(tier):
         # BFS continues only from histories that lead to NEW states (dedup happens at the top of the next round)
         if d >= depth:
             break
+    shutil.rmtree(hroot, ignore_errors=True)
     rep.sample({"expression": ops[5][1][0][0], "equivalent_graphql": ops[5][1][0][1]})
     rep.sample({"two_top_level": [e[0] for e in ops[-3][1]]})
     rep.sample({"history_menu": [m[1][0][0] for m in HISTORY_MENU[:4]]})
